@@ -41,6 +41,8 @@ CHECKS.update({
          "dynamic happens-before: a race is reported only if some explored execution leaves the two accesses unordered; slice elements and loop conditions are not instrumented."),
  "C13": ("exploration", "5/C13", "small-scope exhaustive enumeration of a path grammar (5 prefixes x <= 2 (3) directory segments x 10 segment shapes incl. placeholder look-alikes, inputs, extra files) - 21k (248k) one-task workflows executed with REAL bash; token must be at exactly the declared path and nowhere else, input resolved from inside the temp dir, extras at the same relative location",
          "single task: no interleaving to explore; kernel / bash observed, not scheduled."),
+ "C15": ("exploration", "5/C15", "small-scope exhaustive enumeration of a pattern grammar (literals and {i:} {o:} {p:} {t:} placeholders with modifier chains of basename, dirname, %suffix, s/a/b/; single placeholders, all ordered pairs and triples; command patterns and SetOut patterns; missing-value cases; default output names under every map-iteration order and every single-component change) - 178k cases quick / 3.3M thorough - built through NewProc/SetOut/NewTask and compared with a reference written from the documentation",
+         "the reference is silent where the documentation is (search string occurring twice, suffix equal to the whole value, dirname directly under /)."),
  "C17": ("model_checking", "5/C17", "real mkfifo + real bash producer/consumer under the controlled scheduler (async exec seam, exits observed only at quiescence, stuck children recognised from /proc/<pid>/stack); all schedules with <= 1 delay x payload sizes around the pipe buffer x slot counts; then the history run-again-in-place",
          "delay-bounded (k=1), not closed; the inside of the kernel pipe is not scheduled."),
  "C19": ("model_checking", "5/C19", "real components wired to recorder processes: combinators x port counts x stream lengths x every map-iteration variant x schedules (DPOR closed / delay bound 1); selector x ALL predicate patterns; splitter x line counts x limits x final newline; concatenator, sources, readers, globber against an independent matcher",
